@@ -370,7 +370,9 @@ def run(ctx) -> None:
     for cn in ('Economics', 'SBTEconomics', 'SUTRAEconomics', 'AGSEconomics', 'EconomicsAddOns'):
         for ci in repo.classes.get(cn, []):
             for m in ci.methods.values():
-                for st in ast.walk(m.node):
+                from gxstat.inline import unroll_literal_loops
+                # a store through the variable of a loop over a literal table of parameter objects is a store to each of them
+                for st in ast.walk(unroll_literal_loops(m.node)):
                     if isinstance(st, (ast.Assign, ast.AugAssign)):
                         for t in (st.targets if isinstance(st, ast.Assign) else [st.target]):
                             if norm(t) in args:
